@@ -125,8 +125,12 @@ func VH_C01_ReadRendered() {
 			doc += " X1:10 X2:20 Y1:30 Y2:40"
 		}
 		doc += eol
-		for _, l := range cue.lines {
-			doc += l.src + eol
+		for li, l := range cue.lines {
+			doc += l.src
+			// with no blank padding at the end of the file the last line may also lack its terminator
+			if !(c == len(model)-1 && li == len(cue.lines)-1 && eofBlanks == 0 && k%2 == 1) {
+				doc += eol
+			}
 		}
 		if c < len(model)-1 {
 			for b := 0; b < blanks; b++ {
